@@ -30,8 +30,12 @@ def gen(ck, params, cfgs):
                 cases.append(("scalar", cfg, "set %s %s scalar 1 native %d" % (head, pk, v)))
                 cases.append(("scalar unreduced", cfg, "set %s %s scalar 0 native %d" % (head, pk, v)))
                 cases.append(("scalar assign", cfg, "set %s %s assign 1 native %d" % (head, pk, v)))
-        for v in (0, -1, 2 ** 700, -(2 ** 701) - 5, ps[0]):
-            cases.append(("mpz scalar", cfg, "set %s poly scalar 1 mpz %d" % (head, v)))
+        # single big integers through every entry point; values around the word sizes (a shortcut through a native word must not narrow them)
+        single = [0, -1, 2 ** 700, -(2 ** 701) - 5, ps[0], B, B + 12345, 2 ** 16, 2 ** 32, 2 ** 32 + ps[-1] + 1, 2 ** 63 + 11, 2 ** 64 - 1, 2 ** 64, 2 ** 64 + 1, -(2 ** 32), -(2 ** 64) + 1, -ps[-1], rng.randrange(2 ** 64)]
+        for v in single:
+            for src in ("scalar", "scalar_t", "assign", "assign_t", "ctor", "ctor_t"):
+                if src != "scalar" and v in (2 ** 700, -(2 ** 701) - 5) : continue
+                cases.append(("mpz scalar" if src == "scalar" else "mpz single integer, other entry points", cfg, "set %s poly %s 1 mpz %d" % (head, src, v)))
     return cases
 
 def run(ck):
